@@ -1,67 +1,19 @@
-(* Proofs/ReduceSelfloop.v — C10 with self-connections: the clustering pairs on matrices that may carry a
-   nonzero diagonal, through the option-valued routines of Model/ClusteringInf.v (None = the float inf that the
-   code returns when cyc3 <> 0 is divided by a vanishing K(K-1) [- 2 diag(A^2)]).
-   * wd/bd on any 0/1 matrix and wd/wu on any symmetric matrix agree INCLUDING the infinities (oeq);
-   * wu/bu and bd/bu on a symmetric 0/1 matrix agree wherever the weighted / directed routine returns a finite
-     number; it returns inf exactly at nodes with fewer than two neighbours (counting the node itself when it
-     has a self-connection) that carry a closed 3-walk through a self-connection, where clustering_coef_bu
-     returns 0 (its `if k >= 2` guard): the two pairs are REFUTED on 0/1 matrices with self-connections;
-   * with an empty diagonal no routine returns inf. *)
+(* Proofs/ReduceSelfloop.v — C10 with self-connections, after the repair 366dab6 of clustering_coef_wu / _bd / _wd.
+   Model/ClusteringInf.v follows the code statement by statement with the float quotient visible (None = inf).
+   * [cc_o_total]: for EVERY matrix (any weights, any diagonal) the three routines return a finite number — the
+     masks `CYC3[CYC3 == 0] = inf` / `K[K < 2] = inf` leave no zero denominator — and it is the value of the routines
+     of Model/Clustering.v (whose total division x / 0 = 0 stands in for the masks);
+   * hence every pair holds for any diagonal: wd = bd on 0/1 input, wd = wu on symmetric input (ClusteringReduce.v,
+     never had a diagonal hypothesis) and, NEW, wu = bu and bd = bu on every symmetric 0/1 matrix WITHOUT the
+     hypothesis `nodiag` that the unrepaired code needed (there: inf against 0 at node 1 of [[1,1],[1,0]]). *)
 From Coq Require Import QArith Qabs List Arith Bool ZArith Lia Lqa.
 From BCT Require Import Base.Mat Base.SumQ Model.Threshold Model.Clustering Model.ClusteringInf
   Proofs.ClusteringSpec Proofs.Clustering Proofs.ClusteringRange Proofs.ClusteringReduce.
 Import ListNotations.
 Open Scope Q_scope.
 
-(* ---------- the masking idiom with the visible quotient ---------- *)
-Lemma mask_divo c k d :
-  xdivo c (xsub (xkk1 (xmask c k)) d) = if Qeq_bool c 0 then Some 0 else odiv c (k * (k - 1) - d).
-Proof. unfold xmask, odiv. destruct (Qeq_bool c 0); cbn [xkk1 xsub xdivo]; reflexivity. Qed.
-Lemma mask_divo0 c k : xdivo c (xkk1 (xmask c k)) = if Qeq_bool c 0 then Some 0 else odiv c (k * (k - 1)).
-Proof. unfold xmask, odiv. destruct (Qeq_bool c 0); cbn [xkk1 xdivo]; reflexivity. Qed.
-
-Lemma xdivo_sound c d q : xdivo c d = Some q -> q == xdiv c d.
-Proof.
-  destruct d as [x|]; cbn [xdivo xdiv].
-  - destruct (Qeq_bool x 0); [discriminate|]. intros H. injection H as <-. reflexivity.
-  - intros H. injection H as <-. reflexivity.
-Qed.
-
-(* masked quotient: "Some 0 if c = 0, else c / x (None if x = 0)" *)
-Definition mq (c x : Q) : option Q := if Qeq_bool c 0 then Some 0 else odiv c x.
-Lemma mq_ext c c' x x' : c == c' -> x == x' -> oeq (mq c x) (mq c' x').
-Proof.
-  intros Hc Hx. unfold mq. rewrite (Qeq_bool_ext _ _ Hc). destruct (Qeq_bool c' 0); [cbn [oeq]; reflexivity|].
-  apply odiv_ext; assumption.
-Qed.
-Lemma mq_scale4 c x : oeq (mq (4 * c) (4 * x)) (mq c x).
-Proof.
-  unfold mq. rewrite Qeq_bool_scale4. destruct (Qeq_bool c 0); [cbn [oeq]; reflexivity|].
-  apply odiv_scale. intros H. discriminate H.
-Qed.
-
-(* ---------- the three routines as masked quotients of the enumerations of Proofs/ClusteringSpec.v ---------- *)
-Lemma cc_bd_o_def n A i : oeq (cc_bd_o n A i) (mq (tri_dir n A i) (poss_dir n A i)).
-Proof.
-  unfold cc_bd_o. cbv zeta. rewrite mask_divo. apply mq_ext; [apply cyc3_tri|].
-  rewrite rowsum_dtot, diag2_dbi. reflexivity.
-Qed.
-Lemma cc_wd_o_def cbrt n W i : oeq (cc_wd_o cbrt n W i) (mq (tri_dir n (mmap cbrt W) i) (poss_dir n (mmap nzQ W) i)).
-Proof.
-  unfold cc_wd_o. cbv zeta. rewrite mask_divo. change (mmap cbrt (mT W)) with (mT (mmap cbrt W)).
-  apply mq_ext; [apply cyc3_tri|]. rewrite rowsum_dtot, diag2_dbi. reflexivity.
-Qed.
-Lemma cc_wu_o_def cbrt n W i :
-  cc_wu_o cbrt n W i = mq (diag3 n (mmap cbrt W) i) (kdeg n W i * (kdeg n W i - 1)).
-Proof. unfold cc_wu_o. cbv zeta. rewrite mask_divo0. reflexivity. Qed.
-
-(* a finite value of the visible routine is the value of the routine of Model/Clustering.v: every theorem of
-   C09 / C10 about cc_bd / cc_wd / cc_wu speaks about the visible routines wherever they are finite *)
-Theorem cc_o_sound cbrt n W i q :
-  (cc_bd_o n W i = Some q -> q == cc_bd n W i) /\
-  (cc_wd_o cbrt n W i = Some q -> q == cc_wd cbrt n W i) /\
-  (cc_wu_o cbrt n W i = Some q -> q == cc_wu cbrt n W i).
-Proof. repeat split; intros H; apply xdivo_sound; exact H. Qed.
+Lemma div_zero c x : x == 0 -> c / x == 0.
+Proof. intros H. rewrite H. unfold Qdiv. change (/ 0) with 0. ring. Qed.
 
 (* ---------- a sum of 0/1 values is 0, 1 or at least 2 ---------- *)
 Lemma sum01_cases (f : nat -> Q) n : (forall x, (x < n)%nat -> f x == 0 \/ f x == 1) ->
@@ -86,111 +38,106 @@ Proof.
   - apply Qle_bool_iff. exact E.
 Qed.
 
-(* ---------- 0/1 input, any diagonal: wd = bd including the infinities ---------- *)
+
+Lemma kdeg_lt2_kk1 n W i : kdeg n W i < 2 -> kdeg n W i * (kdeg n W i - 1) == 0.
+Proof. intros H. destruct (kdeg_cases n W i) as [E|[E|E]]; [rewrite E; ring|rewrite E; ring|lra]. Qed.
+
+(* ---------- the masked quotients never divide by zero, and equal the total-division forms ---------- *)
+Lemma masked_div_total c k d :
+  exists q, xdivo c (xzinf (xsub (xkk1 (xmask c k)) d)) = Some q /\ q == xdiv c (xsub (xkk1 (xmask c k)) d).
+Proof.
+  unfold xmask. destruct (Qeq_bool c 0); cbn [xkk1 xsub xzinf xdivo xdiv].
+  - exists 0. split; reflexivity.
+  - destruct (Qeq_bool (k * (k - 1) - d) 0) eqn:E; cbn [xdivo].
+    + exists 0. split; [reflexivity|]. apply Qeq_bool_iff in E. symmetry. apply div_zero. exact E.
+    + rewrite E. eexists. split; reflexivity.
+Qed.
+
+Theorem cc_bd_o_total n A i : exists q, cc_bd_o n A i = Some q /\ q == cc_bd n A i.
+Proof. unfold cc_bd_o, cc_bd. cbv zeta. apply masked_div_total. Qed.
+
+Theorem cc_wd_o_total cbrt n W i : exists q, cc_wd_o cbrt n W i = Some q /\ q == cc_wd cbrt n W i.
+Proof. unfold cc_wd_o, cc_wd. cbv zeta. apply masked_div_total. Qed.
+
+Theorem cc_wu_o_total cbrt n W i : exists q, cc_wu_o cbrt n W i = Some q /\ q == cc_wu cbrt n W i.
+Proof.
+  unfold cc_wu_o, cc_wu. cbv zeta. change (rowsum n (mmap nzQ W) i) with (kdeg n W i).
+  set (c := diag3 n (mmap cbrt W) i). unfold xmask. destruct (Qeq_bool c 0); cbn [xlt2inf xkk1 xdivo xdiv].
+  - exists 0. split; reflexivity.
+  - unfold Qltb. destruct (Qle_bool 2 (kdeg n W i)) eqn:E; cbn [negb xkk1 xdivo].
+    + apply Qle_bool_iff in E.
+      destruct (Qeq_bool (kdeg n W i * (kdeg n W i - 1)) 0) eqn:E0.
+      * apply Qeq_bool_iff in E0. exfalso. assert (0 < kdeg n W i * (kdeg n W i - 1)) by nra. lra.
+      * eexists. split; reflexivity.
+    + exists 0. split; [reflexivity|]. symmetry. apply div_zero. apply kdeg_lt2_kk1.
+      destruct (Qlt_le_dec (kdeg n W i) 2) as [L|L]; [exact L|]. apply Qle_bool_iff in L. congruence.
+Qed.
+
+(* the three together, as the property file states them *)
+Theorem cc_o_total cbrt n W i :
+  (exists q, cc_bd_o n W i = Some q /\ q == cc_bd n W i) /\
+  (exists q, cc_wd_o cbrt n W i = Some q /\ q == cc_wd cbrt n W i) /\
+  (exists q, cc_wu_o cbrt n W i = Some q /\ q == cc_wu cbrt n W i).
+Proof. exact (conj (cc_bd_o_total n W i) (conj (cc_wd_o_total cbrt n W i) (cc_wu_o_total cbrt n W i))). Qed.
+
+(* ---------- symmetric 0/1 input, ANY diagonal: wu = bu and bd = bu ---------- *)
 Section Cb.
 Variable cbrt : Q -> Q.
 
-Theorem cc_wd_o_bin_eq_bd n A i : cbrt_ok cbrt n A -> binary n A -> (i < n)%nat ->
-  oeq (cc_wd_o cbrt n A i) (cc_bd_o n A i).
+Theorem cc_wu_bin_eq_bu_anydiag n A i : cbrt_ok cbrt n A -> binary n A -> symmetric n A -> (i < n)%nat ->
+  cc_wu cbrt n A i == cc_bu n A i.
 Proof.
-  intros Hc Hb Hi. apply (oeq_trans _ _ _ (cc_wd_o_def cbrt n A i)). apply oeq_sym.
-  apply (oeq_trans _ _ _ (cc_bd_o_def n A i)). apply mq_ext.
-  - symmetry. apply tri_dir_ext; [apply cbrt_binary_ext; assumption|exact Hi].
-  - symmetry. apply poss_dir_ext; [apply mmap_nz_binary; assumption|exact Hi].
-Qed.
-
-(* ---------- symmetric input, any weights, any diagonal: wd = wu including the infinities ---------- *)
-Theorem cc_wd_o_sym_eq_wu n W i : cbrt_ok cbrt n W -> symmetric n W -> (i < n)%nat ->
-  oeq (cc_wd_o cbrt n W i) (cc_wu_o cbrt n W i).
-Proof.
-  intros Hc Hs Hi. apply (oeq_trans _ _ _ (cc_wd_o_def cbrt n W i)). rewrite cc_wu_o_def.
-  apply (oeq_trans _ (mq (4 * diag3 n (mmap cbrt W) i) (4 * (kdeg n W i * (kdeg n W i - 1))))); [|apply mq_scale4].
-  apply mq_ext; [apply tri_dir_sym; [apply cbrt_sym; assumption|exact Hi]|apply poss_dir_sym; assumption].
-Qed.
-
-(* ---------- symmetric 0/1 input, any diagonal: wu against bu ---------- *)
-(* finite values agree; inf only at a node with fewer than two neighbours, where bu returns 0, and only if the
-   diagonal is not empty *)
-Theorem cc_wu_o_bin_bu n A i : cbrt_ok cbrt n A -> binary n A -> symmetric n A -> (i < n)%nat ->
-  match cc_wu_o cbrt n A i with
-  | Some q => q == cc_bu n A i
-  | None => cc_bu n A i == 0 /\ kdeg n A i < 2 /\ ~ diag3 n A i == 0 /\ ~ nodiag n A
-  end.
-Proof.
-  intros Hc Hb Hs Hi. rewrite cc_wu_o_def. unfold mq, odiv.
+  intros Hc Hb Hs Hi. rewrite (cc_bu_triples n A i Hb Hs Hi), cc_wu_unfold.
   assert (E3 := diag3_ext n (mmap cbrt A) A i (cbrt_binary_ext cbrt n A Hc Hb) Hi).
-  pose proof (cc_bu_triples n A i Hb Hs Hi) as Ebu.
-  destruct (Qeq_bool (diag3 n (mmap cbrt A) i) 0) eqn:E0.
-  - rewrite Ebu. apply Qeq_bool_iff in E0. rewrite E3 in E0. destruct (Qle_bool 2 (kdeg n A i)); [|reflexivity].
-    rewrite E0. unfold Qdiv. ring.
-  - destruct (Qeq_bool (kdeg n A i * (kdeg n A i - 1)) 0) eqn:Ek.
-    + apply Qeq_bool_iff in Ek. pose proof (kk1_zero_lt2 n A i Ek) as E2. rewrite E2 in Ebu.
-      split; [exact Ebu|]. split.
-      { destruct (Qlt_le_dec (kdeg n A i) 2) as [L|L]; [exact L|]. apply Qle_bool_iff in L. congruence. }
-      apply Qeq_bool_neq in E0. split; [rewrite <- E3; exact E0|].
-      intros Hd. apply E0. apply (no_triangle_cyc3 cbrt n A i Hc Hi).
-      exact (kdeg_lt2_no_triangle n A i Hs Hd Hi E2).
-    + apply Qeq_bool_neq in Ek. rewrite Ebu, (kk1_nz_ge2 n A i Ek). rewrite E3. reflexivity.
+  rewrite (Qeq_bool_ext _ _ E3).
+  destruct (Qle_bool 2 (kdeg n A i)) eqn:E.
+  - destruct (Qeq_bool (diag3 n A i) 0) eqn:E0.
+    + apply Qeq_bool_iff in E0. rewrite E0. unfold Qdiv. ring.
+    + rewrite E3. reflexivity.
+  - destruct (Qeq_bool (diag3 n A i) 0); [reflexivity|]. apply div_zero. apply kdeg_lt2_kk1.
+    destruct (Qlt_le_dec (kdeg n A i) 2) as [L|L]; [exact L|]. apply Qle_bool_iff in L. congruence.
 Qed.
 End Cb.
 
-(* ---------- symmetric 0/1 input, any diagonal: bd against bu ---------- *)
-Theorem cc_bd_o_sym_bu n A i : binary n A -> symmetric n A -> (i < n)%nat ->
-  match cc_bd_o n A i with
-  | Some q => q == cc_bu n A i
-  | None => cc_bu n A i == 0 /\ kdeg n A i < 2 /\ ~ diag3 n A i == 0 /\ ~ nodiag n A
-  end.
+Theorem cc_bd_sym_eq_bu_anydiag n A i : binary n A -> symmetric n A -> (i < n)%nat -> cc_bd n A i == cc_bu n A i.
 Proof.
-  intros Hb Hs Hi.
-  assert (Hd : oeq (cc_bd_o n A i) (mq (diag3 n A i) (kdeg n A i * (kdeg n A i - 1)))).
-  { apply (oeq_trans _ _ _ (cc_bd_o_def n A i)).
-    apply (oeq_trans _ (mq (4 * diag3 n A i) (4 * (kdeg n A i * (kdeg n A i - 1))))); [|apply mq_scale4].
-    apply mq_ext; [apply tri_dir_sym; assumption|].
-    rewrite <- (poss_dir_ext n (mmap nzQ A) A i (mmap_nz_binary n A Hb) Hi). apply poss_dir_sym; assumption. }
-  pose proof (cc_bu_triples n A i Hb Hs Hi) as Ebu. unfold mq, odiv in Hd.
-  destruct (Qeq_bool (diag3 n A i) 0) eqn:E0.
-  - destruct (cc_bd_o n A i) as [q|]; cbn [oeq] in Hd; [|contradiction]. rewrite Hd, Ebu.
-    apply Qeq_bool_iff in E0. destruct (Qle_bool 2 (kdeg n A i)); [|reflexivity]. rewrite E0. unfold Qdiv. ring.
-  - destruct (Qeq_bool (kdeg n A i * (kdeg n A i - 1)) 0) eqn:Ek.
-    + destruct (cc_bd_o n A i) as [q|]; cbn [oeq] in Hd; [contradiction|].
-      apply Qeq_bool_iff in Ek. pose proof (kk1_zero_lt2 n A i Ek) as E2. rewrite E2 in Ebu.
-      split; [exact Ebu|]. split.
-      { destruct (Qlt_le_dec (kdeg n A i) 2) as [L|L]; [exact L|]. apply Qle_bool_iff in L. congruence. }
-      apply Qeq_bool_neq in E0. split; [exact E0|].
-      intros Hn. apply E0. apply triple_zero. intros j k Hj Hk.
-      destruct (kdeg_lt2_no_triangle n A i Hs Hn Hi E2 j k Hj Hk) as [[H _]|[[H _]|[H _]]]; auto.
-    + destruct (cc_bd_o n A i) as [q|]; cbn [oeq] in Hd; [|contradiction]. rewrite Hd, Ebu.
-      apply Qeq_bool_neq in Ek. rewrite (kk1_nz_ge2 n A i Ek). reflexivity.
+  intros Hb Hs Hi. rewrite (cc_bu_triples n A i Hb Hs Hi), cc_bd_fagiolo. unfold def_cc_bd, def_cc_dir.
+  rewrite (Qeq_bool_ext _ _ (tri_dir_sym n A i Hs Hi)), Qeq_bool_scale4.
+  assert (Ep : poss_dir n A i == 4 * (kdeg n A i * (kdeg n A i - 1))).
+  { rewrite <- (poss_dir_ext n (mmap nzQ A) A i (mmap_nz_binary n A Hb) Hi). apply poss_dir_sym; assumption. }
+  destruct (Qle_bool 2 (kdeg n A i)) eqn:E.
+  - destruct (Qeq_bool (diag3 n A i) 0) eqn:E0.
+    + apply Qeq_bool_iff in E0. rewrite E0. unfold Qdiv. ring.
+    + rewrite (tri_dir_sym n A i Hs Hi), Ep. apply div_scale4.
+  - destruct (Qeq_bool (diag3 n A i) 0); [reflexivity|]. apply div_zero. rewrite Ep.
+    rewrite kdeg_lt2_kk1; [ring|].
+    destruct (Qlt_le_dec (kdeg n A i) 2) as [L|L]; [exact L|]. apply Qle_bool_iff in L. congruence.
 Qed.
 
-(* ---------- empty diagonal: no routine returns inf on a 0/1 matrix ---------- *)
-Lemma mq_finite c x : (~ c == 0 -> 0 < x) -> mq c x <> None.
+(* ---------- the four pairs on the statement-level routines: finite on both sides and equal ---------- *)
+Lemma o_total_eq a b x y : (exists q, a = Some q /\ q == x) -> (exists q, b = Some q /\ q == y) -> x == y -> oeq a b.
+Proof. intros (p & -> & Hp) (q & -> & Hq) H. cbn [oeq]. rewrite Hp, Hq. exact H. Qed.
+
+Theorem cc_o_pairs :
+  (forall cbrt n A i, cbrt_ok cbrt n A -> binary n A -> (i < n)%nat -> oeq (cc_wd_o cbrt n A i) (cc_bd_o n A i)) /\
+  (forall cbrt n W i, cbrt_ok cbrt n W -> symmetric n W -> (i < n)%nat -> oeq (cc_wd_o cbrt n W i) (cc_wu_o cbrt n W i)) /\
+  (forall cbrt n A i, cbrt_ok cbrt n A -> binary n A -> symmetric n A -> (i < n)%nat ->
+     oeq (cc_wu_o cbrt n A i) (Some (cc_bu n A i))) /\
+  (forall n A i, binary n A -> symmetric n A -> (i < n)%nat -> oeq (cc_bd_o n A i) (Some (cc_bu n A i))).
 Proof.
-  intros H. unfold mq, odiv. destruct (Qeq_bool c 0) eqn:E; [discriminate|]. apply Qeq_bool_neq in E.
-  destruct (Qeq_bool x 0) eqn:E'; [|discriminate]. apply Qeq_bool_iff in E'. specialize (H E). lra.
-Qed.
-Lemma oeq_not_none a b : oeq a b -> b <> None -> a <> None.
-Proof. destruct a, b; cbn [oeq]; try tauto. intros _ _ H. discriminate H. Qed.
-
-Lemma binary_unit n A : binary n A -> unit_weights n A.
-Proof. intros Hb i j Hi Hj. apply (binary_bounds n A i j Hb Hi Hj). Qed.
-
-Theorem cc_o_nodiag_finite cbrt n A i : cbrt_ok cbrt n A -> binary n A -> nodiag n A -> (i < n)%nat ->
-  cc_bd_o n A i <> None /\ cc_wd_o cbrt n A i <> None /\ (symmetric n A -> cc_wu_o cbrt n A i <> None).
-Proof.
-  intros Hc Hb Hd Hi. split; [|split].
-  - apply (oeq_not_none _ _ (cc_bd_o_def n A i)). apply mq_finite. apply no_div0_bd; assumption.
-  - apply (oeq_not_none _ _ (cc_wd_o_def cbrt n A i)). apply mq_finite.
-    apply no_div0_wd; [assumption|apply binary_unit; assumption|assumption|assumption].
-  - intros Hs. rewrite cc_wu_o_def. apply mq_finite.
-    apply no_div0_wu; [assumption|apply binary_unit; assumption|assumption|assumption|assumption].
+  split; [|split; [|split]].
+  - intros cbrt n A i Hc Hb Hi. apply (o_total_eq _ _ _ _ (cc_wd_o_total cbrt n A i) (cc_bd_o_total n A i)).
+    apply cc_wd_bin_eq_bd; assumption.
+  - intros cbrt n W i Hc Hs Hi. apply (o_total_eq _ _ _ _ (cc_wd_o_total cbrt n W i) (cc_wu_o_total cbrt n W i)).
+    apply cc_wd_sym_eq_wu; assumption.
+  - intros cbrt n A i Hc Hb Hs Hi. destruct (cc_wu_o_total cbrt n A i) as (q & -> & Hq). cbn [oeq]. rewrite Hq.
+    apply cc_wu_bin_eq_bu_anydiag; assumption.
+  - intros n A i Hb Hs Hi. destruct (cc_bd_o_total n A i) as (q & -> & Hq). cbn [oeq]. rewrite Hq.
+    apply cc_bd_sym_eq_bu_anydiag; assumption.
 Qed.
 
-(* ---------- the witnesses: a single node with a self-connection, and a pendant node hanging on one ---------- *)
+(* ---------- the former counterexample: a pendant node hanging on a node with a self-connection ---------- *)
 Definition loop_pendant : mat Q := of_rows 0 [[1; 1]; [1; 0]]%list.
-
-Lemma bin2 (A : mat Q) : (forall a b, (a < 2)%nat -> (b < 2)%nat -> A a b == 0 \/ A a b == 1) -> binary 2 A.
-Proof. intros H. exact H. Qed.
 
 Lemma loop_pendant_ok : binary 2 loop_pendant /\ symmetric 2 loop_pendant.
 Proof.
@@ -198,27 +145,11 @@ Proof.
     (destruct a as [|[|a]]; [| |exfalso; lia]); (destruct b as [|[|b]]; [| |exfalso; lia]); vm_compute; tauto.
 Qed.
 
-Theorem cc_wu_bu_selfloop_refuted :
-  exists n A i, binary n A /\ symmetric n A /\ (i < n)%nat /\ cbrt_ok cbrt_exact n A /\
-    ~ oeq (cc_wu_o cbrt_exact n A i) (Some (cc_bu n A i)).
-Proof.
-  exists 2%nat, loop_pendant, 1%nat. destruct loop_pendant_ok as [Hb Hs].
-  split; [exact Hb|]. split; [exact Hs|]. split; [lia|]. split; [apply cbrt_exact_ok_binary; exact Hb|].
-  vm_compute. tauto.
-Qed.
-
-Theorem cc_bd_bu_selfloop_refuted :
-  exists n A i, binary n A /\ symmetric n A /\ (i < n)%nat /\ ~ oeq (cc_bd_o n A i) (Some (cc_bu n A i)).
-Proof.
-  exists 2%nat, loop_pendant, 1%nat. destruct loop_pendant_ok as [Hb Hs].
-  split; [exact Hb|]. split; [exact Hs|]. split; [lia|]. vm_compute. tauto.
-Qed.
-
-(* what the routines return on the witness: node 0 (self-connection + one neighbour) gets 3/2 from all four,
-   node 1 (one neighbour, which carries a self-connection) gets inf from wu / bd / wd and 0 from bu *)
+(* node 0 (self-connection + one neighbour) gets 3/2 from all four routines; node 1 (one neighbour, which carries a
+   self-connection: cyc3 = 1 over K(K-1) = 0) gets 0 from all four — inf from wu / bd / wd before 366dab6 *)
 Example selfloop_values :
-  map (cc_wu_o cbrt_exact 2 loop_pendant) [0; 1]%nat = [Some (3 # 2); None]%list /\
-  map (fun i => qopt (cc_bd_o 2 loop_pendant i)) [0; 1]%nat = [Some (3 # 2); None]%list /\
-  map (fun i => qopt (cc_wd_o cbrt_exact 2 loop_pendant i)) [0; 1]%nat = [Some (3 # 2); None]%list /\
+  map (fun i => qopt (cc_wu_o cbrt_exact 2 loop_pendant i)) [0; 1]%nat = [Some (3 # 2); Some 0]%list /\
+  map (fun i => qopt (cc_bd_o 2 loop_pendant i)) [0; 1]%nat = [Some (3 # 2); Some 0]%list /\
+  map (fun i => qopt (cc_wd_o cbrt_exact 2 loop_pendant i)) [0; 1]%nat = [Some (3 # 2); Some 0]%list /\
   map (fun i => Qred (cc_bu 2 loop_pendant i)) [0; 1]%nat = [3 # 2; 0]%list.
 Proof. vm_compute. repeat split. Qed.
